@@ -142,7 +142,12 @@ func (root *Root) resolve(
 	t Type,
 	depth int) (result interface{}, ea []error) {
 
-	if depth <= 0 || IsNil(obj) {
+	if IsNil(obj) {
+		// A nil pointer (or any other typed nil) is a null in the output. Do
+		// not return obj itself, it would show up as a non-null value.
+		return nil, nil
+	}
+	if depth <= 0 {
 		// If not intended then generate an error later when trying to
 		// generate output.
 		return obj, nil
